@@ -634,4 +634,138 @@ theorem specTrace_selected (s : Setup) (o : OptsT) (user : String) (bot : Option
     · cases e; exact Or.inl rfl
 
 
+
+/-! ### any call that starts from a quiescent interpreter state -/
+
+/-- `after_input_runs` from any context in which `$skip_output_rails` is falsy -/
+theorem after_input_runs_gen (s : Setup) (hwf : s.WF) (o : OptsT) (bot : Option String) (hb : BotOK o bot) (σ u : Ctx) (u0 c : Nat) (h0c : u0 < c)
+    (hu : ∀ k ∈ K10, ∀ kv ∈ u, kv.1 ≠ k) (hO : OptCtx s o σ) (hbot : ∀ b, bot = some b → σ.get "bot_message" = .str b) (hsk : (σ.get "skip_output_rails").truthy = false)
+    (t : String) (hum : (roundCtx (oneFlow σ "process user input" u0 9 createUserMessage 10000 u c)).get "user_message" = .str t) :
+    Runs s (base ++ s.rails) (oneFlow σ "process user input" u0 9 createUserMessage 10000 u c) (afterSpec s o t bot) := by
+  obtain ⟨σ1, R1, hK1, hum1⟩ := R_um s σ u u0 c _ _ _ hu rfl rfl rfl
+  rw [guard_dlg hO] at R1
+  rw [hum] at hum1
+  have hO1 : OptCtx s o σ1 := hO.keep hK1.to8
+  have hsk1 : (σ1.get "skip_output_rails").truthy = false := by rw [hK1 _ (by simp [K10])]; exact hsk
+  have hbot1 : ∀ b, bot = some b → σ1.get "bot_message" = .str b := fun b hb2 => (hK1 _ (by simp [K10])).trans (hbot b hb2)
+  cases hd : selD o
+  · cases ho : selO o
+    · -- echo
+      have R2 := R_echo s σ1 c
+      rw [hum1] at R2
+      simp only [hd, ho, Bool.not_false, if_true] at R1
+      have := R1.then R2
+      simpa [afterSpec, hd, ho, strOf] using this
+    · -- the supplied bot message
+      obtain ⟨b, rfl⟩ : ∃ b, bot = some b := Option.isSome_iff_exists.mp (hb hd ho)
+      obtain ⟨σ2, R2, hK2⟩ := R_botmsg s σ1 c _ _ _ hsk1 rfl rfl rfl
+      rw [guard_out hO1, hbot1 b rfl] at R2
+      have R3 := pbm_runs s hwf o σ2 (c + 1) (c + 2) (by omega) b (hO1.keep hK2)
+      simp only [hd, ho, Bool.not_false, Bool.not_true, if_true, if_false, Bool.false_eq_true] at R1
+      have := (R1.trans R2).then R3
+      simpa [afterSpec, hd, ho] using this
+  · obtain ⟨σ2, R2, hK2⟩ := R_gui s σ1 c _ _ _ hsk1 rfl rfl rfl
+    rw [guard_out hO1] at R2
+    have R3 := pbm_runs s hwf o σ2 (c + 2) (c + 3) (by omega) s.llmText (hO1.keep hK2)
+    simp only [hd, Bool.not_true, if_false, Bool.false_eq_true] at R1
+    have := (R1.trans R2).then R3
+    simpa [afterSpec, hd] using this
+
+
+
+
+/-- the configuration keys (written by no flow) -/
+structure CfgCtx (s : Setup) (σ : Ctx) : Prop where
+  inF : σ.get "config.rails.input.flows" = .strs (s.input.map (·.name))
+  outF : σ.get "config.rails.output.flows" = .strs (s.output.map (·.name))
+  retF : σ.get "config.rails.retrieval.flows" = .strs []
+
+/-- no options were ever recorded in the conversation -/
+def NoOpts (σ : Ctx) : Prop :=
+  σ.get "generation_options" = .none ∧ σ.get "generation_options.rails.input" = .none ∧
+  σ.get "generation_options.rails.dialog" = .none ∧ σ.get "generation_options.rails.output" = .none
+
+theorem init_ctx_from (s : Setup) (cfgs : Cfgs) (o : OptsT) (bot : Option String) (σS : Ctx) (cS : Nat)
+    (hcfg : CfgCtx s σS) (hsk : (σS.get "skip_output_rails").truthy = false) (hopt : o = none → NoOpts σS) :
+    ∃ σ0, (∀ rest, replay true cfgs (optionsEvent o ++ (match bot with | some b => [.contextUpdate [("bot_message", .str b)]] | none => []) ++ rest)
+          { ctx := σS, flows := [], next := none, upd := [], ctr := cS }
+        = replay true cfgs rest { ctx := σ0, flows := [], next := none, upd := [], ctr := cS }) ∧
+      OptCtx s o σ0 ∧ (∀ b, bot = some b → σ0.get "bot_message" = .str b) ∧ (σ0.get "skip_output_rails").truthy = false := by
+  obtain ⟨h1, h2, h3⟩ := hcfg
+  rcases o with _ | ⟨i, d, r, ou⟩ <;> rcases bot with _ | b
+  · obtain ⟨n1, n2, n3, n4⟩ := hopt rfl
+    exact ⟨σS, fun rest => rfl, ⟨h1, h2, h3, n1, n2, n3, n4⟩, (fun b hb => nomatch hb), hsk⟩
+  · obtain ⟨n1, n2, n3, n4⟩ := hopt rfl
+    refine ⟨σS.update [("bot_message", .str b)], fun rest => rfl, ?_, ?_, ?_⟩
+    · refine ⟨?_, ?_, ?_, ?_, ?_, ?_, ?_⟩ <;> simp only [Ctx.update, List.foldl] <;> ctx_norm <;> assumption
+    · intro b' hb'; cases hb'; simp only [Ctx.update, List.foldl]; ctx_norm
+    · simp only [Ctx.update, List.foldl]; ctx_norm; exact hsk
+  · refine ⟨σS.update [("generation_options", .bool true), ("generation_options.rails.input", .bool i),
+      ("generation_options.rails.dialog", .bool d), ("generation_options.rails.retrieval", .bool r),
+      ("generation_options.rails.output", .bool ou)], fun rest => rfl, ?_, ?_, ?_⟩
+    · refine ⟨?_, ?_, ?_, ?_, ?_, ?_, ?_⟩ <;> simp only [Ctx.update, List.foldl] <;> ctx_norm <;> first | assumption | rfl
+    · exact fun b' hb' => nomatch hb'
+    · simp only [Ctx.update, List.foldl]; ctx_norm; exact hsk
+  · refine ⟨(σS.update [("generation_options", .bool true), ("generation_options.rails.input", .bool i),
+      ("generation_options.rails.dialog", .bool d), ("generation_options.rails.retrieval", .bool r),
+      ("generation_options.rails.output", .bool ou)]).update [("bot_message", .str b)], fun rest => rfl, ?_, ?_, ?_⟩
+    · refine ⟨?_, ?_, ?_, ?_, ?_, ?_, ?_⟩ <;> simp only [Ctx.update, List.foldl] <;> ctx_norm <;> first | assumption | rfl
+    · intro b' hb'; cases hb'; simp only [Ctx.update, List.foldl]; ctx_norm
+    · simp only [Ctx.update, List.foldl]; ctx_norm; exact hsk
+
+/-- **any call of a conversation that starts from a quiescent interpreter state** (no flow state left, uid counter `cS`, context
+    `σS` with the configuration keys, `$skip_output_rails` falsy; options recorded by this call, or never recorded at all):
+    the loop of `generate_events` executes exactly `specTrace` of THIS call's options — whatever earlier calls left in the
+    other context variables (`$allowed`, `$i`, `$user_message`, `$bot_message`, earlier options …) -/
+theorem turn_runs_from (s : Setup) (hwf : s.WF) (o : OptsT) (user : String) (bot : Option String) (hb : BotOK o bot)
+    (σS : Ctx) (cS : Nat) (hcfg : CfgCtx s σS) (hskS : (σS.get "skip_output_rails").truthy = false) (hopt : o = none → NoOpts σS) :
+    ∃ st, replay true (base ++ s.rails) (initialHistory o user bot) { ctx := σS, flows := [], next := none, upd := [], ctr := cS } = .ok st ∧
+      Runs s (base ++ s.rails) st (specTrace s o user bot) := by
+  obtain ⟨σ0, hrep, hO0, hbot0, hsk0⟩ := init_ctx_from s (base ++ s.rails) o bot σS cS hcfg hskS hopt
+  let ev : Event := .other "UtteranceUserActionFinished" [("final_transcript", .str user)]
+  let σE := (σ0.withEvent ev).set "user_message" (.str user)
+  have hKE : Keep K10 σ0 σE := ((Keep.refl K10 σ0).withEvent _ (by keys_tac)).setNot _ _ (by decide)
+  have hOE : OptCtx s o σE := hO0.keep hKE.to8
+  have hbotE : ∀ b, bot = some b → σE.get "bot_message" = .str b := fun b hb2 => (hKE _ (by simp [K10])).trans (hbot0 b hb2)
+  have hskE : (σE.get "skip_output_rails").truthy = false := by rw [hKE _ (by simp [K10])]; exact hsk0
+  have hTE := T_entry s.rails s.rails_sub σ0 [] cS none user _ _ _ rfl rfl rfl
+  rw [guard_in hO0] at hTE
+  refine ⟨_, (hrep _).trans (replay_cons_ok _ _ [] _ _ hTE (by simp)), ?_⟩
+  show Runs s (base ++ s.rails) { ctx := σE, flows := [{ uid := cS, flowId := "process user input", head := if (!s.input.isEmpty && selI o) = true then 4 else 9 }], next := some { elem := if (!s.input.isEmpty && selI o) = true then createStartRails else createUserMessage, uid := cS, prio := 10000 }, upd := [("user_message", V.str user)], ctr := cS + 1 } _
+  cases hrun : (!s.input.isEmpty && selI o)
+  · -- input rails not run
+    have := after_input_runs_gen s hwf o bot hb σE [("user_message", .str user)] cS (cS + 1) (by omega) (noUser_K10 _) hOE hbotE hskE user (by
+      simp only [roundCtx, oneFlow, List.isEmpty_cons, Bool.false_eq_true, if_false, Ctx.update, List.foldl]; ctx_norm)
+    simpa [specTrace, hrun, oneFlow] using this
+  · have hne : s.input.isEmpty = false := by
+      cases h : s.input.isEmpty <;> simp [h] at hrun ⊢
+    obtain ⟨n0, ns, hnames⟩ := names_cons hne
+    obtain ⟨σ1, u1, hu1, R1, hF1, hK1⟩ := R_startRails s σE [("user_message", .str user)] cS (cS + 1) (by omega) n0 ns (.str user) (σE.get "allowed")
+      (by rw [hOE.inF, hnames])
+      (by intro k hk kv hkv; simp only [List.mem_singleton] at hkv; subst hkv; intro e; simp only at e; subst e; revert hk; decide)
+      (by simp only [roundCtx, oneFlow, List.isEmpty_cons, Bool.false_eq_true, if_false, Ctx.update, List.foldl]; ctx_norm) rfl
+    rw [← hnames] at hF1
+    have hO1 : OptCtx s o (σ1.update u1) := hOE.keep hK1.to8
+    cases hl : loopSpec "input" 0 s.input user with
+    | mk obs res =>
+      cases res with
+      | some t =>
+        obtain ⟨σ2, c2, R2, hum2, hK2, hc2⟩ := input_phase_pass s hwf cS (cS + 1) (by omega) σ1 u1 (cS + 1 + 1) user _ (by intro e; rw [e] at hne; simp at hne) hu1 (by omega) hF1 obs t hl
+        obtain ⟨σ3, R3, hK3⟩ := R_exit s σ2 c2 cS (cS + 1)
+        have hK13 : Keep K10 σE σ3 := (hK1.trans hK2).trans hK3.kuTo10
+        have R4 := after_input_runs_gen s hwf o bot hb σ3 [] cS c2 (by omega) (by intro k _ kv hkv; cases hkv) (hOE.keep hK13.to8)
+          (fun b hb2 => (hK13 _ (by simp [K10])).trans (hbotE b hb2)) (by rw [hK13 _ (by simp [K10])]; exact hskE) t (by
+            simp only [roundCtx, oneFlow, List.isEmpty_nil, if_true]
+            rw [hK3 _ (List.mem_cons_self ..)]; exact hum2)
+        have := ((R1.trans R2).trans R3).then R4
+        simpa [specTrace, hrun, hl, oneFlow] using this
+      | none =>
+        have R2 := input_phase_reject s hwf cS (cS + 1) (by omega) σ1 u1 (cS + 1 + 1) user _ hu1 (by omega) hF1 hO1.retF obs hl
+        have := R1.then R2
+        simpa [specTrace, hrun, hl, oneFlow] using this
+
+
+
+
+
 end NemoVerif.RailsInterp
